@@ -132,8 +132,11 @@ PROPS['C11'] = dict(
 )
 
 PROPS['C01'] = dict(
-    level='exploration', builds={'vtrace_race': dict(pkg='./cmd/vtrace', overlay='shim', race=True)},
-    stages=[dict(name='trace', bin='vtrace_race', args=['-prop', 'C01'], shards=shards(8, 70), par=14, crash_is_violation=True, crash_key='vnet:crash', timeout=1800)],
+    level='exploration', builds={'vtrace_race': dict(pkg='./cmd/vtrace', overlay='shim', race=True), 'vtrace_delays': dict(pkg='./cmd/vtrace', overlay='yield', race=True)},
+    stages=[dict(name='trace', bin='vtrace_race', args=['-prop', 'C01'], shards=shards(8, 70), par=14, crash_is_violation=True, crash_key='vnet:crash', timeout=1800),
+            # the same checker with delays inserted at the synchronisation points of package vnet (thorough only)
+            dict(name='trace-delays', bin='vtrace_delays', args=['-prop', 'C01'], shards=shards(0, 28), par=14, tiers=('thorough',), crash_is_violation=True, crash_key='vnet:crash', timeout=1800, group='g2')],
+    replay_stage='trace',
     need_counters=['hop_events', 'must_deliver', 'datagrams_received', 'napt_outbound', 'nat_inbound_must', 'must_drop_held', 'loopback_received', 'ended_unbound', 'nat_1to1_outbound'],
 )
 
